@@ -41,6 +41,8 @@ type nodeCase struct {
 	events        []nodeEvent
 	crashLog      *logDB
 	crashDone     bool
+	synced        bool // best block equalled the fork-choice winner after the last event
+	lastVoteRes   string
 	pw            *poolWatch
 	initLogLen    int
 	dumpAfterInit string
@@ -252,6 +254,7 @@ func (nc *nodeCase) deliver(name string, sups ...supSpec) procResult {
 	if nc.crashLog != nil {
 		nc.events = append(nc.events, nodeEvent{kind: "deliver", name: name, sups: sups, logLenPost: len(nc.crashLog.log), dumpPost: d})
 	}
+	nc.lastVoteRes = ""
 	nc.oracleAfterEvent(op, r)
 	return r
 }
@@ -282,6 +285,7 @@ func (nc *nodeCase) restart() {
 		return
 	}
 	nc.restarted = true
+	nc.synced = false
 	nc.emit("restart", nc.dump("ok"))
 	nc.oracleAfterEvent("restart", procResult{})
 }
@@ -314,6 +318,7 @@ func (nc *nodeCase) vote(order int, src, tgt string, valid bool) {
 	if nc.crashLog != nil {
 		nc.events = append(nc.events, nodeEvent{kind: "vote", order: order, src: src, tgt: tgt, valid: valid, logLenPost: len(nc.crashLog.log), dumpPost: dv})
 	}
+	nc.lastVoteRes = res
 	if res == "panic" {
 		nc.c.Fail("C37:vote-panic", "verification message handling panicked on "+op)
 		return
@@ -373,6 +378,45 @@ func (nc *nodeCase) oracleAfterEvent(op string, r procResult) {
 			}
 			nc.c.Fail(sig("C11", what), fmt.Sprintf("after %s: InMainChain(%s)=%v but best=%s (height %d), block height %d", op, name, got, bestName, best.Height, b.Height))
 			break
+		}
+	}
+	// C11: implementation-only fork-choice oracle (notes/C11.md): the declarative maximum of
+	// (justified height on the path, height, hash) over the checkpoint tree
+	{
+		cc := n.chain.VerifNodeCasper()
+		flat := cc.VerifNodeTree()
+		var jhAt []uint64
+		wantIdx, wantJ := -1, uint64(0)
+		for i := range flat {
+			t := &flat[i]
+			base := flat[0].Height
+			if t.Depth > 0 {
+				base = jhAt[t.Depth-1]
+			}
+			j := base
+			if t.Status == state.Justified {
+				j = t.Height
+			}
+			jhAt = append(jhAt[:t.Depth], j)
+			if wantIdx < 0 || j > wantJ || (j == wantJ && t.Height > flat[wantIdx].Height) ||
+				(j == wantJ && t.Height == flat[wantIdx].Height && t.Hash.String() > flat[wantIdx].Hash.String()) {
+				wantIdx, wantJ = i, j
+			}
+		}
+		if wantIdx >= 0 {
+			want := flat[wantIdx].Hash
+			if got := cc.BestChain(); got != want {
+				nc.c.Fail(sig("C11", "bestchain-not-max"), fmt.Sprintf("after %s: Casper.BestChain()=%s but the fork-choice maximum over the checkpoint tree is %s", op, nc.nm.name(got), nc.nm.name(want)))
+			}
+			isBest := best.Hash() == want
+			answered := strings.HasPrefix(op, "deliver") || strings.HasPrefix(op, "vote")
+			okAnswer := r.err == nil && r.panic == "" && nc.lastVoteRes != "err"
+			if answered && okAnswer && nc.synced && !isBest && nc.mode != "rules" {
+				nc.c.Fail(sig("C11", "best-not-fork-choice"), fmt.Sprintf("after %s: best block %s is not the fork-choice winner %s", op, bestName, nc.nm.name(want)))
+			}
+			if !(answered && okAnswer && nc.synced) {
+				nc.synced = isBest
+			}
 		}
 	}
 	// C12: no orphan whose parent is stored; every delivered block with all ancestors
